@@ -8,15 +8,15 @@ from check import Prop
 class C35(Prop):
     pid = "C35"
     check_mod = "C35"
-    level = "partial"
+    level = "proof"
     drivers = [dict(pkg="internal/servers/hls", test="TestVerifC35Hls"),
                dict(pkg="internal/servers/webrtc", test="TestVerifC35Webrtc"),
                dict(pkg="internal/servers/moq", test="TestVerifC35Moq"),
                dict(pkg="internal/protocols/httpp", test="TestVerifC35Filter"),
                dict(pkg="internal/api", test="TestVerifC35Param"),
                dict(pkg="internal/core", test="TestVerifC35Core", timeout=1500)]
-    n_quick = 400          # per driver (the core driver scales its own rounds from it)
-    n_thorough = 6000
+    n_quick = 300          # per driver (filter/param use half; the core driver scales its own rounds from it)
+    n_thorough = 4000
     shard = 300
     ready = False
     rule = ("per driver VERIF_N cases from one seed. Paths: valid shapes, the boundary ('', '/', '//', '*', suffix alone, suffix "
